@@ -5,14 +5,7 @@
     closed under [bind], so one syntax-directed pass over the model proves [R] for every analysis
     function.  History invariants are then short inductions over [reach] (see [Invariants.v]). *)
 From SA Require Import Model.
-
-(** The register an instruction defines, if any. *)
-Definition def_reg (i : instr) : option N :=
-  match i with
-  | IExprValue _ r | IExprConst _ r | IExprStruct _ _ r | IExprOp _ _ _ r | ICall _ _ r
-  | ICondExpr _ _ _ r | ILogic _ _ _ r | IExt _ r => Some r
-  | _ => None
-  end.
+From SA.Spec Require Export Stack.
 
 Inductive step : bst -> bst -> Prop :=
 | s_alloc mk s r s' : (forall n, def_reg (mk n) = Some n) -> alloc_emit mk s = Ok r s' -> step s s'
